@@ -306,11 +306,15 @@ def v1(e: Engine, rep: Report):
                     if isinstance(b, ast.Call) and \
                             ast.unparse(b.func) == 'len' and b.args:
                         # len(<the buffer>)
+                        lv = mf.leaves(f4, b.args[0])
                         ok = all(isinstance(bb, ast.Call) and
                                  ast.unparse(bb.func) == 'bytearray'
-                                 for _, bb in mf.leaves(f4, b.args[0]))
+                                 for _, bb in lv)
                         if ok:
                             continue
+                        if any(isinstance(bb, ast.Attribute)
+                               for _, bb in lv):
+                            return None      # len(<object state>)
                     if isinstance(b, ast.Attribute):
                         return None
                     return False
